@@ -580,6 +580,11 @@ def check(ctx, tag='', **kw):
     for nm_, role in ((rptr, 'read-pointer'), (wptr, 'write-pointer'), (aptr, 'ack-pointer')):
         ob('buffers', role + '.wrap', (1 << M.info(nm_).w) == nb, M.info(nm_).loc,
            '%s (width %d) must wrap at the number of buffers (%d)' % (role, M.info(nm_).w, nb))
+    # the occupancy / credit counters count 0..number of buffers: each must be able to hold that number (a full window)
+    for nm_, role in ((credits, 'credits'), (to_send, 'to-send-count'), (awaiting, 'unacknowledged-count')):
+        ob('buffers', role + '.capacity', (1 << M.info(nm_).w) > nb, M.info(nm_).loc,
+           'the %s counter (width %d) must hold the number of buffers %d: with a full window it wraps to 0 (nothing is '
+           'retransmitted after an LBAD / credit is over- or under-counted)' % (role, M.info(nm_).w, nb))
     for f in ('valid', 'payload', 'ctrl'):
         d = q.comb_def(ir, 'self.source.' + f)
         ob('buffers', 'source.' + f, d is not None and d.canon() == 'packet_tx.source.' + f, None,
